@@ -39,6 +39,7 @@ const (
 	modeHostile2        // exactly two hostile fields
 	modeTrunc           // valid, cut at a random byte
 	modeProb            // every field hostile with a small probability
+	modeGuard           // one count / range field set just above its legal maximum, followed by that many elements
 )
 
 type fw struct {
@@ -52,6 +53,8 @@ type fw struct {
 	toolsOn bool
 	maxBits int
 	full    bool
+	maxes   []uint64 // per field: legal maximum of a ue(v) field + 1 (0 = not a ue field)
+	guardAt int      // modeGuard: index of the field written as max+1 (-1: none)
 	hostile []string // names=values of the hostile fields written (debugging)
 	trace   []string // every field (only with structTraceOn)
 }
@@ -60,6 +63,7 @@ func (f *fw) hostileNow(kind byte) bool {
 	i := f.n
 	f.n++
 	f.kinds = append(f.kinds, kind)
+	f.maxes = append(f.maxes, 0)
 	if f.at != nil {
 		return f.at[i]
 	}
@@ -123,12 +127,23 @@ func (f *fw) ue(name string, max uint64, typical ...int) uint64 {
 	if v > max {
 		v = max
 	}
+	idx := f.n
 	if f.hostileNow(1) {
 		c := [...]uint64{0, 1, max - 1, max, max + 1, max + 1, 254, 255, 255, 256, 511, 1<<16 - 1, 1 << 16, 1 << 31,
 			1<<32 - 2, 1<<32 - 1, 1 << 32, 1<<64 - 2}
 		v = c[f.hr.Intn(len(c))]
 		if v == 1<<64-1 {
 			v = 1<<64 - 2
+		}
+		f.note(name, v)
+	}
+	if max < 1<<62 {
+		f.maxes[idx] = max + 1
+	}
+	if f.guardAt == idx {
+		v = max + 1
+		if f.hr.Intn(3) == 0 {
+			v += uint64(f.hr.Intn(30))
 		}
 		f.note(name, v)
 	}
@@ -246,9 +261,15 @@ func (f *fw) trailing() {
 	}
 }
 
+// capLimit bounds the number of elements the WRITER emits for a count field.  Normally 40 (a hostile
+// count then simply claims more than the unit holds); one unit in five is written "honestly" up to 700
+// elements, so that a count just above a parser's guard (256, 300 ...) is followed by that many elements:
+// a parser whose guard was loosened then returns a value where the model returns an error.
+var capLimit = 40
+
 func capN(n uint64) int {
-	if n > 40 {
-		return 40
+	if n > uint64(capLimit) {
+		return capLimit
 	}
 	return int(n)
 }
@@ -258,8 +279,12 @@ func capN(n uint64) int {
 // flags), and the function is run again.
 func writeUnit(r *hx.Rng, mode int, toolsOn bool, maxBits int, body func(f *fw)) ([]byte, *fw) {
 	seed, hseed := r.U64(), r.U64()
+	capLimit = 40
+	if seed%5 == 0 {
+		capLimit = 700
+	}
 	mk := func(at map[int]bool, pm int) *fw {
-		return &fw{r: hx.NewRng(seed), hr: hx.NewRng(hseed), at: at, pm: pm, toolsOn: toolsOn, maxBits: maxBits}
+		return &fw{r: hx.NewRng(seed), hr: hx.NewRng(hseed), at: at, pm: pm, toolsOn: toolsOn, maxBits: maxBits, guardAt: -1}
 	}
 	var f *fw
 	switch mode {
@@ -279,6 +304,21 @@ func writeUnit(r *hx.Rng, mode int, toolsOn bool, maxBits int, body func(f *fw))
 			at[pool[pick.Intn(len(pool))]] = true
 		}
 		f = mk(at, 0)
+	case modeGuard:
+		// a dry run finds the ue(v) fields with a small legal maximum (the guarded counts and ranges)
+		d := mk(map[int]bool{}, 0)
+		body(d)
+		var pool []int
+		for i, m := range d.maxes {
+			if m > 0 && m <= 4096 {
+				pool = append(pool, i)
+			}
+		}
+		f = mk(map[int]bool{}, 0)
+		if len(pool) > 0 {
+			f.guardAt = pool[hx.NewRng(hseed^0x9e3779b9).Intn(len(pool))]
+			capLimit = 700
+		}
 	case modeProb:
 		f = mk(nil, r.Pick(15, 40, 100))
 	default:
@@ -1777,8 +1817,10 @@ func pickMode0(r *hx.Rng, pipeline bool) int {
 			return modeHostile1
 		case k < 80:
 			return modeHostile2
-		case k < 87:
+		case k < 85:
 			return modeTrunc
+		case k < 93:
+			return modeGuard
 		}
 		return modeProb
 	}
@@ -1789,8 +1831,10 @@ func pickMode0(r *hx.Rng, pipeline bool) int {
 		return modeHostile1
 	case k < 80:
 		return modeHostile2
-	case k < 88:
+	case k < 86:
 		return modeTrunc
+	case k < 94:
+		return modeGuard
 	}
 	return modeProb
 }
@@ -1932,7 +1976,7 @@ func r0(f *fw, xs ...int) int { return f.r.Pick(xs...) }
 // target and per mode of the unit, the classes ok/err/panic; for the pipelines per stage, counting a stage
 // only when the stages before it were written in valid mode.
 
-var modeNames = []string{"valid", "hostile1", "hostile2", "trunc", "prob"}
+var modeNames = []string{"valid", "hostile1", "hostile2", "trunc", "prob", "guard"}
 
 type tally map[string]*[3]int // key -> ok, err, panic
 
